@@ -143,6 +143,41 @@ def base_fields(t, rng, layout):
     return f
 
 
+def backgrounds(t, rng, layout):
+    """Field assignments to put a value under test into: random; every other field at its 'not available' code
+    (or zero / all ones where it has none); all zero; all ones; the notable moments for layouts with a time of day.
+    A value's meaning must not depend on the company it keeps."""
+    out = [base_fields(t, rng, layout)]
+    na = base_fields(t, rng, layout)
+    for (name, off, w) in layout:
+        codes = [c for c in NOT_AVAILABLE.get(name, []) if c < (1 << w)]
+        if name in ("lon", "lat"):
+            codes = [{28: 108600000, 27: 54600000, 18: 108600, 17: 54600}[w]]
+        if name in ("year", "month", "day", "eta_month", "eta_day"):
+            codes = [0]
+        if codes:
+            na[name] = codes[0]
+    out.append(na)
+    for fillv in (0, 1):
+        f = base_fields(t, rng, layout)
+        for (name, off, w) in layout:
+            if name not in ("type", "partno"):
+                f[name] = ((1 << w) - 1) * fillv
+        out.append(f)
+    if any(n_ in ("hour", "eta_hour") for (n_, o_, w_) in layout):
+        for tm in rng.sample(NOTABLE_TIMES, 4) + NOTABLE_TIMES[:2]:
+            out.append(apply_notable_time(base_fields(t, rng, layout), tm))
+            # the same moment with everything else 'not available'
+            out.append(apply_notable_time(dict(na), tm))
+    for f in out:
+        f["type"] = type_code(t)
+        if t == "24A":
+            f["partno"] = 0
+        if t == "24B":
+            f["partno"] = 1
+    return out
+
+
 def full_payload(t, fields, nbits=None, tail=b""):
     layout = ais.LAYOUTS[t]
     n = ais.FULL_BITS[t] if nbits is None else nbits
